@@ -5,6 +5,7 @@ mod c02;
 mod c04;
 mod core;
 mod lc;
+mod lcgen;
 
 use crate::core::*;
 
